@@ -243,7 +243,7 @@ class PathDomain(Domain):
         if attr in ("startswith", "endswith", "isdigit"):
             return self.OTHER
         if attr in ("iteritems", "iterobjects"):
-            return A("SEG")
+            return (A("SEG"), self.OTHER, self.OTHER)      # the iterable, represented by its element
         return None
 
     def add(self, l, r, le=None, re_=None):
